@@ -133,7 +133,9 @@ class ScoreIsSatisfied:
 
 
 MINIMUM = Rec("MinimumCondition", label="MinimumCondition", negated=Bool, count=Int,
-              options=FiniteSet(Str, 1, 3), hits=Const(0))
+              options=FiniteSet(Str, 1, 2), hits=Const(0))
+MINIMUM3 = Rec("MinimumCondition", label="MinimumCondition3", negated=Bool, count=Int,
+               options=FiniteSet(Str, 3, 3), hits=Const(0))
 
 
 @spec
@@ -251,7 +253,7 @@ def inner_sem(operands, gene_name):
 class CdsIsSatisfied:
     """cds(...) is true if one single gene in range satisfies the inner formula on its own; it counts as
     a reason only when this gene satisfies the group itself"""
-    params = {"negated": Bool, "operands": ListOf(COND, 1, 2), "genes": ListOf(GENE(1), 1, 3), "focus": Int,
+    params = {"negated": Bool, "operands": ListOf(COND, 1, 2), "genes": ListOf(GENE(1), 1, 2), "focus": Int,
               "cutoff": Int, "circular_origin": Opt(Int), "local_only": Const(False)}
     ghost_params = ["negated", "operands", "genes", "focus", "cutoff", "circular_origin"]
     derived = {"self": build_cds, "details": build_details}
@@ -297,3 +299,31 @@ class RuleDetect:
 @spec
 def exists_reason(condition, gene_name):
     return not forall_str(lambda x: x not in Why(condition, gene_name, False))
+
+
+@contract(f"{FILE}::CDSCondition.is_satisfied", props=["C01"])
+class CdsIsSatisfiedThreeGenes:
+    """the same contract on worlds of exactly three genes (thorough tier only: several minutes)"""
+    variant = True
+    tiers = ("thorough",)
+    params = {"negated": Bool, "operands": ListOf(COND, 1, 2), "genes": ListOf(GENE(1), 3, 3), "focus": Int,
+              "cutoff": Int, "circular_origin": Opt(Int), "local_only": Const(False)}
+    ghost_params = CdsIsSatisfied.ghost_params
+    derived = CdsIsSatisfied.derived
+    stubs = OPERAND_STUBS
+    budget_s = 1500
+    requires = CdsIsSatisfied.__dict__["requires"]
+    ensures = CdsIsSatisfied.__dict__["ensures"]
+
+
+@contract(f"{FILE}::MinimumCondition.is_satisfied", props=["C01"])
+class MinimumIsSatisfiedThreeOptions:
+    """the same contract with three listed profiles (thorough tier only)"""
+    variant = True
+    tiers = ("thorough",)
+    params = dict(MinimumIsSatisfied.params, self=MINIMUM3)
+    ghost_params = MinimumIsSatisfied.ghost_params
+    derived = MinimumIsSatisfied.derived
+    budget_s = 1500
+    requires = MinimumIsSatisfied.__dict__["requires"]
+    ensures = MinimumIsSatisfied.__dict__["ensures"]
